@@ -82,13 +82,13 @@ func (fedQuery) Dummy(ctx context.Context) (*string, error) { return nil, nil }
 type entityResolver struct{ w *fedWorld }
 
 func (r *entityResolver) FindAlphaByID(ctx context.Context, id string) (*Alpha, error) {
-	if err := r.w.apply(ctx, "AlphaByID:" + id); err != nil {
+	if err := r.w.apply(ctx, "AlphaByID:"+id); err != nil {
 		return nil, err
 	}
 	return &Alpha{ID: id, Name: "name-of-" + id}, nil
 }
 func (r *entityResolver) FindAlphaByName(ctx context.Context, name string) (*Alpha, error) {
-	if err := r.w.apply(ctx, "AlphaByName:" + name); err != nil {
+	if err := r.w.apply(ctx, "AlphaByName:"+name); err != nil {
 		return nil, err
 	}
 	return &Alpha{ID: "id-of-" + name, Name: name}, nil
@@ -98,7 +98,7 @@ func (r *entityResolver) FindManyBetaByIDs(ctx context.Context, reps []*BetaByID
 	for _, rp := range reps {
 		keys = append(keys, rp.ID)
 	}
-	if err := r.w.apply(ctx, "BetaByIDs:" + strings.Join(keys, ",")); err != nil {
+	if err := r.w.apply(ctx, "BetaByIDs:"+strings.Join(keys, ",")); err != nil {
 		return nil, err
 	}
 	out := make([]*Beta, len(reps))
@@ -112,7 +112,7 @@ func (r *entityResolver) FindManyBetaByNames(ctx context.Context, reps []*BetaBy
 	for _, rp := range reps {
 		keys = append(keys, rp.Name)
 	}
-	if err := r.w.apply(ctx, "BetaByNames:" + strings.Join(keys, ",")); err != nil {
+	if err := r.w.apply(ctx, "BetaByNames:"+strings.Join(keys, ",")); err != nil {
 		return nil, err
 	}
 	out := make([]*Beta, len(reps))
@@ -131,7 +131,7 @@ func (r *entityResolver) FindManyZetaByIDs(ctx context.Context, reps []*ZetaByID
 	}
 	out := make([]*Zeta, len(reps))
 	for i, rp := range reps {
-		out[i] = &Zeta{ID: rp.ID, Name: "name-of-" + rp.ID, Weight: 7}
+		out[i] = &Zeta{ID: rp.ID, Name: "name-of-" + rp.ID, Weight: 7, Dims: &Dims{}}
 	}
 	return out, nil
 }
@@ -145,18 +145,30 @@ func (r *entityResolver) FindManyZetaByNames(ctx context.Context, reps []*ZetaBy
 	}
 	out := make([]*Zeta, len(reps))
 	for i, rp := range reps {
-		out[i] = &Zeta{ID: "id-of-" + rp.Name, Name: rp.Name, Weight: 7}
+		out[i] = &Zeta{ID: "id-of-" + rp.Name, Name: rp.Name, Weight: 7, Dims: &Dims{}}
 	}
 	return out, nil
 }
 func (r *entityResolver) FindDeltaByID(ctx context.Context, id string) (*Delta, error) {
-	if err := r.w.apply(ctx, "DeltaByID:" + id); err != nil {
+	if err := r.w.apply(ctx, "DeltaByID:"+id); err != nil {
 		return nil, err
 	}
-	return &Delta{ID: id, Weight: 1000}, nil
+	return &Delta{ID: id, Weight: 1000, Area: 2000, Dims: &Dims{}}, nil
+}
+func (r *entityResolver) FindThetaByID(ctx context.Context, id string) (*Theta, error) {
+	if err := r.w.apply(ctx, "ThetaByID:"+id); err != nil {
+		return nil, err
+	}
+	return &Theta{ID: id}, nil
+}
+func (r *entityResolver) FindIotaByOwnerID(ctx context.Context, ownerID string) (*Iota, error) {
+	if err := r.w.apply(ctx, "IotaByOwnerID:"+ownerID); err != nil {
+		return nil, err
+	}
+	return &Iota{Owner: &Alpha{ID: ownerID, Name: "name-of-" + ownerID}}, nil
 }
 func (r *entityResolver) FindGammaByOwnerID(ctx context.Context, ownerID string) (*Gamma, error) {
-	if err := r.w.apply(ctx, "GammaByOwnerID:" + ownerID); err != nil {
+	if err := r.w.apply(ctx, "GammaByOwnerID:"+ownerID); err != nil {
 		return nil, err
 	}
 	n := "note-" + ownerID
@@ -168,13 +180,13 @@ func (r *entityResolver) FindEpsilonBySkuAndVariant(ctx context.Context, sku str
 	if variant != nil {
 		v = *variant
 	}
-	if err := r.w.apply(ctx, "EpsilonBySkuAndVariant:" + sku + "/" + v); err != nil {
+	if err := r.w.apply(ctx, "EpsilonBySkuAndVariant:"+sku+"/"+v); err != nil {
 		return nil, err
 	}
 	return &Epsilon{Sku: sku, Variant: variant, Upc: "upc-of-" + sku + "/" + v}, nil
 }
 func (r *entityResolver) FindEpsilonByUpc(ctx context.Context, upc string) (*Epsilon, error) {
-	if err := r.w.apply(ctx, "EpsilonByUpc:" + upc); err != nil {
+	if err := r.w.apply(ctx, "EpsilonByUpc:"+upc); err != nil {
 		return nil, err
 	}
 	return &Epsilon{Sku: "sku-of-" + upc, Upc: upc}, nil
@@ -185,7 +197,7 @@ var (
 	fedDoc    *ast.QueryDocument
 )
 
-const fedQueryText = `query($r: [_Any!]!) { _entities(representations: $r) { __typename ... on Alpha { id name } ... on Beta { id name } ... on Gamma { note owner { id } } ... on Delta { id size weight } ... on Zeta { id name size } ... on Epsilon { sku variant upc } } }`
+const fedQueryText = `query($r: [_Any!]!) { _entities(representations: $r) { __typename ... on Alpha { id name } ... on Beta { id name } ... on Gamma { note owner { id } } ... on Delta { id size weight area dims { width height } } ... on Zeta { id name size dims { width height } } ... on Epsilon { sku variant upc } ... on Theta { id } ... on Iota { owner { id name } } } }`
 
 func fedSetup() {
 	es := NewExecutableSchema(Config{Resolvers: &fedRoot{}})
